@@ -204,7 +204,8 @@ def enc_dict(it, v):
 
 
 DICT_CODEC = Codec(encode=enc_dict, decode=lambda it, t: SymDict(t), name='dicts')
-CAT_CODEC = Codec(encode=lambda it, v: (v.term if isinstance(v, AbsVal) else None), decode=lambda it, t: mk_cat(t), name='categories')
+CAT_CODEC = Codec(encode=lambda it, v: (v.term if isinstance(v, AbsVal) else (name_code(it, v) if V.is_str(v) else None)),
+                  decode=lambda it, t: mk_cat(t), name='categories')
 
 
 def mk_cat(term):
@@ -683,7 +684,16 @@ def register(reg):
         result_make=lambda it, env: (it.ctx.fresh_int('counter'), mk_cat(it.ctx.fresh_int('autocat'))),
         ensures=[('fresh-auto-name', 'not (result[1] in self.category_list) and result[1].startswith("x")')],
         modifies=['self._autogen_category_counter'],
-        note='assumed: builds "__lctxdb_cat_<n>" strings in a loop until the name is unused (not verified)'))
+        note='call-site abstraction of the unit _get_new_autogen_category below (names are abstract integers at call sites)'))
+
+    # ... and verified here: the name handed back is not in use and carries the internal prefix; the database is not touched
+    c_autogen = Contract(
+        DB + '._get_new_autogen_category', setup=lambda it: {'self': mk_db(it)}, requires=DB_INV,
+        ensures=[('the-name-is-not-in-use', 'not (result[1] in self.category_list)'),
+                 ('the-name-carries-the-internal-prefix', "result[1].startswith('__lctxdb_cat_')")],
+        modifies=[])
+    reg.add_loop(LoopContract(DB + '._get_new_autogen_category', 0, invariant=[('no-invariant-needed-the-exit-test-is-the-postcondition', 'True')]))
+    units['_get_new_autogen_category'] = FunctionUnit(c_autogen)
 
     def setup_ext(it):
         ctx = it.ctx
@@ -984,6 +994,11 @@ def search():
             fe = f.extended_with(macros=[MacroSpec("c")])
         except Exception as ex:
             return what + ": filtering an extended database / extending a filtered one raised %r" % (ex,)
+        # filtering keeps the PARENT's category order, whatever the order of the names asked for
+        kf = db.filtered_context(keep_categories=list(reversed(db.categories())) + ["no-such-category"])
+        if kf.categories() != db.categories():
+            return what + ": filtered_context(keep_categories=<reversed order>) of %r has the categories %r" % (db.categories(), kf.categories())
+        derived.append((kf, "filtered with keep_categories"))
         if ef.categories() != [c for c in e2.categories() if c != "C1"]:
             return what + ": filtered_context(exclude C1) of categories %r gives %r" % (e2.categories(), ef.categories())
         derived += [(ef, "extended twice, then filtered"), (fe, "filtered, then extended")]
